@@ -289,7 +289,7 @@ def run(run, tier, seed, replay_case=None):
         D = C.Differential(run, PROP, [impl], model, env, view=strip_rings, signatures=SIGNATURES, keep_first=3,
                            model_desc="coq/C01/Model.v (variant %s) vs gc.tpp, src/core/*.cpp, src/occa/internal/core/*.cpp" % variant)
         I, R, S = D.eval(cases)
-        prop_fails, corr_breaks = D.judge(cases, I, R, S, proof_failures=proof_failures)
+        prop_fails, corr_breaks = D.judge(cases, I, R, S, proof_failures=proof_failures, max_report=4)
     finally:
         VC.load_known_findings = orig_known
 
